@@ -262,7 +262,7 @@ func canonicalTPSString(r *RNG) string {
 func genC10(c *Ctx) {
 	r := c.R
 	// (a) shared position sources
-	n := c.Scale(9000, 1600000)
+	n := c.Scale(9000, 400000)
 	for k := 0; k < n; k++ {
 		emitTPSPos(c, randomPosition(r), "random")
 	}
@@ -318,7 +318,7 @@ func genC10(c *Ctx) {
 		}
 	}
 	// (d) canonical strings drawn from the grammar: parse, and format(parse s) = s
-	n = c.Scale(10000, 1600000)
+	n = c.Scale(10000, 800000)
 	for k := 0; k < n; k++ {
 		s := canonicalTPSString(r)
 		c.Count("src.canonical")
@@ -327,7 +327,7 @@ func genC10(c *Ctx) {
 		c.Count("canon=" + strings.Fields(out + " x")[0])
 	}
 	// (e) mutated strings (shared with C13)
-	n = c.Scale(12000, 1600000)
+	n = c.Scale(12000, 800000)
 	for k := 0; k < n; k++ {
 		var s string
 		if r.Chance(1, 2) {
@@ -519,17 +519,17 @@ func genC13tps(c *Ctx) {
 			c.Count(p.op + "." + stream + "." + outClass(out))
 		}
 		// stream 1: valid formatter outputs
-		n := c.Scale(8000, 2000000)
+		n := c.Scale(8000, 400000)
 		if p.op == "parsetps" {
-			n = c.Scale(4000, 600000)
+			n = c.Scale(4000, 200000)
 		}
 		for k := 0; k < n; k++ {
 			emit("valid", p.valid())
 		}
 		// stream 2: structure-aware mutations
-		n = c.Scale(40000, 6000000)
+		n = c.Scale(40000, 2000000)
 		if p.op == "parsetps" {
-			n = c.Scale(24000, 3000000)
+			n = c.Scale(24000, 1000000)
 		}
 		for k := 0; k < n; k++ {
 			emit("mutated", mutate(r, p.valid(), p.alphabet, p.tokens))
@@ -547,7 +547,7 @@ func genC13tps(c *Ctx) {
 			}
 		}
 		// stream 3: random bytes
-		n = c.Scale(24000, 6000000)
+		n = c.Scale(24000, 1500000)
 		for k := 0; k < n; k++ {
 			s := randomBytes(r, p.alphabet)
 			if p.op == "parsetps" && r.Chance(1, 2) {
